@@ -151,7 +151,8 @@ class Sim(object):
             a = (d[1] >> 4) * 128
             if a >= len(self.mem):
                 raise nfc.clf.TimeoutError
-            return bytearray([d[1]]) + self.mem[a:a + 128]
+            seg = self.mem[a:a + 128]
+            return bytearray([d[1]]) + seg + bytearray(128 - len(seg))
         if d[0] in (0x53, 0x1A):                      # WRITE-E / WRITE-NE
             if self.lost():
                 raise nfc.clf.TimeoutError
@@ -252,8 +253,21 @@ def LAYOUTS(tier):
     for al in range(8):
         out.append(('tt1', 512, std + nul(al), 'dyn/std/align%d' % al))
     out.append(('tt1', 512, std + [2, 3, 0x40, 16, 0x05], 'dyn/rsvd-inside'))
+    # reserved / lock octets inside the last 16 octets of the data area
+    out.append(('tt2', 64, [2, 3, 0x34, 8, 0x04], 'static/rsvd-tail'))
+    out.append(('tt2', 16 + 496, [2, 3, 0xFF, 12, 0x05], 'dyn/rsvd-tail'))
+    out.append(('tt2', 16 + 496, [1, 3, 0xFF, 0x60, 0x05], 'dyn/lock-tail'))
+    out.append(('tt1', 512, std + [2, 3, 0xFF, 12, 0x05], 'dyn/rsvd-tail'))
+    # capacity boundary: exactly 256..259 free octets at the NDEF TLV (1-byte vs 3-byte length field break-even)
+    for n in (5, 6, 7, 8):
+        out.append(('tt2', 16 + 264, nul(n), 'cap-boundary/null%d' % n))
+    out.append(('tt2', 16 + 264, [1, 3, 0x82, 0x20, 0x36] + nul(1), 'cap-boundary/lock+null1'))
+    out.append(('tt2', 16 + 264, [1, 3, 0x82, 0x20, 0x36] + nul(2), 'cap-boundary/lock+null2'))
+    for al in (0, 1, 2):
+        out.append(('tt1', 304, std + nul(al), 'cap-boundary/std+null%d' % al))
     if tier == 'quick':
-        keep = ('static/align0', 'static/align1', 'static/align3', 'dyn/lock-behind/align1',
+        keep = ('static/rsvd-tail', 'dyn/rsvd-tail', 'dyn/lock-tail', 'cap-boundary/null6', 'cap-boundary/null7', 'cap-boundary/lock+null1', 'cap-boundary/std+null0',
+                'cap-boundary/std+null1', 'static/align0', 'static/align1', 'static/align3', 'dyn/lock-behind/align1',
                 'dyn/lock-behind/align2', 'dyn/lock-behind/align3', 'dyn/rsvd-inside/align1', 'dyn/lock+rsvd',
                 'dyn/std/align0', 'dyn/std/align5', 'dyn/std/align6', 'dyn/rsvd-inside')
         out = [x for x in out if x[3] in keep]
@@ -266,6 +280,17 @@ def lengths(cap, tier):
     if tier == 'quick':
         old = [x for x in old if x in (0, 7, 255, 300, cap)][:4]
     return old, new
+
+
+def real_capacity(kind, mem):
+    """octets a message can really occupy in this layout (independent reading): free octets from the NDEF TLV to
+    the end of the data area minus tag and length field"""
+    seen, info = fresh_view(kind, mem)
+    if info is None:
+        return 0
+    off, addrs, skip, end = info
+    free = len([a for a in range(off, end) if a not in skip])
+    return max(0, free - 2) if free - 2 <= 254 else max(254, free - 4)
 
 
 # ---------------------------------------------------------------- the three contracts on one case
@@ -282,15 +307,15 @@ def run_case(case):
     off, addrs0, skip, end = info0
     sim = Sim(kind, mem0, case.get('cut'))
     tag = make_tag(sim)
-    nd = tag.ndef
+    try:
+        nd = tag.ndef
+    except Exception as e:   # noqa
+        return [('C01/%s.bounded/read' % kind, False, 'tag.ndef raised %s: %s' % (type(e).__name__, e))]
     if nd is None or nd.octets != old:
         return [('C01/%s.bounded/read' % kind, False, 'tag.ndef reads %r, the tag holds %d octets'
                  % (None if nd is None else nd.octets[:8], len(old)))]
     # capacity is what the layout really holds
-    free = [a for a in range(off, end) if a not in skip]
-    real = max(0, len(free) - 2)
-    if real > 254 + 2 - 2:
-        real = max(254, len(free) - 4)
+    real = real_capacity(kind, mem0)
     res.append(('C01/%s.bounded/capacity' % kind, nd.capacity <= real, 'capacity %d, layout holds %d'
                 % (nd.capacity, real)))
     if case['newlen'] > nd.capacity:
@@ -336,16 +361,28 @@ def cases_for(layout, tier):
     kind, size, prefix, name = layout
     mem = build(kind, size, prefix, 0)
     tag = make_tag(Sim(kind, mem))
-    cap = tag.ndef.capacity if tag.ndef is not None else 0
-    olds, news = lengths(cap, tier)
+    cap = tag.ndef.capacity if tag.ndef is not None else 0       # what the library accepts
+    real = real_capacity(kind, mem)                              # what the layout holds
+    olds, news = lengths(min(cap, real) if cap > 0 else real, tier)
+    olds = [x for x in olds if x <= real]
+    news = sorted(set(news + [x for x in (real - 1, real, cap - 1, cap) if x >= 0]))
     out = []
     for o in olds:
-        for n in news + [cap + 1]:
+        for n in news + [max(cap, real) + 1]:
             out.append(dict(kind=kind, size=size, prefix=prefix, name=name, oldlen=o, newlen=n, cut=None))
     return out
 
 
 def work(layout_tier):
+    try:
+        return work_(layout_tier)
+    except BaseException as e:      # noqa  (custom exception classes do not survive the trip through the pool)
+        import traceback
+        return {'bounded/harness-error': {'n': 1, 'failed': 1, 'fails': [
+            {'case': {'layout': layout_tier[0][3]}, 'detail': traceback.format_exc()[-600:]}]}}
+
+
+def work_(layout_tier):
     layout, tier, prop = layout_tier
     agg = {}
     for case in cases_for(layout, tier):
